@@ -59,7 +59,7 @@ def stage_generate(job, work, binary, flags, seed, variant):
     """TLC exploration + harness execution for one (kind, instance); fills job in place."""
     kind, inst = job['kind'], job['inst']
     kd = KINDS[kind]
-    tag = inst['name'] + ('' if variant == ('tracked', 'std') else '-%s-%s' % variant)
+    tag = inst['name'] + ('' if variant == ('tracked', 'std') else '-%s-%s' % variant) + ('-nocb' if job.get('nocb') else '')
     job['tag'] = tag
     if job.get('random_only'):
         drv = vlib.tlc_ops_only(kd['mc'], inst['mc'], work.dir, tag + '-ops')
@@ -81,7 +81,7 @@ def stage_generate(job, work, binary, flags, seed, variant):
         extra += ['--random', '%d,%d,%d' % (n, ln, seed + 1), '--dump-hists', work.path(tag + '.hists')]
         job['hists'] = work.path(tag + '.hists')
     prefix = work.path(tag + '.trace')
-    r = vlib.harness_exec(binary, kind, inst['cfg'], inst['keys'], drv, prefix, flags=flags, extra=extra,
+    r = vlib.harness_exec(binary, 'rawnc' if job.get('nocb') else kind, inst['cfg'], inst['keys'], drv, prefix, flags=flags, extra=extra,
                           shard=job.get('shard', 15000))
     job['exec'] = r
     job['shards'] = vlib.list_shards(prefix)
@@ -228,6 +228,14 @@ def run_list_prop(prop, tier, seed, only_kinds=None, harness_variant='std', coll
                 for ro in RANDOM_ONLY[tier]:
                     if ro['kind'] in kinds:
                         jobs.append(dict(kind=ro['kind'], inst=ro, variant=variant, random_only=True))
+        if 'raw' in kinds and prop not in ('C15', 'C18') and not inst_limit and harness_variant == 'std':
+            # RawLRU built WITHOUT an eviction callback (RawLRU::new / with_hasher, the common way): code gated on
+            # `on_evict.is_none()` is only reached this way.  First closure instance + the random-only ones.
+            extra_jobs = []
+            for j in jobs:
+                if j['kind'] == 'raw' and j['variant'] == ('tracked', 'std') and (j.get('random_only') or j['inst'] is INSTANCES['raw'][tier][0]):
+                    extra_jobs.append(dict(j, nocb=True))
+            jobs += extra_jobs
         if spec.get('fault_big') and not inst_limit:
             # panic injection in LARGE states: the state is reached by a seeded random history (it is the path), see exec.rs
             from instances import FAULT_BIG
